@@ -170,6 +170,14 @@ def run(res, tier):
                 res.bad("R-SAVE-RESTORE", f"{fname}:paths", INV, r["line"], r["msg"])
         else:
             res.ok("R-SAVE-RESTORE", f"{fname}:paths", None)
+    # ---------------------------------------------------------------- R-FRESH on the inverse pipeline
+    from .. import pipeline, r_fresh
+    res.rule("R-FRESH", "no stage of the inverse pipeline reads a derived field whose producer is more conditional than the reader", floor=10)
+    FI = pipeline.Flattener(ui)
+    for sk in ("mjSTAGE_NONE",):
+        evs = FI.flatten(ui.funcs["mj_inverseSkip"], {"skipstage": enum[sk], "skipsensor": 0})
+        r_fresh.check(res, "R-FRESH", f"mj_inverseSkip({sk})", evs, INV)
+
     res.explanation = (
         "Sibling agreement between each forward integrator (specialised by constant-folding the integrator tests) and the "
         "matching case of mj_discreteAcc on: disable flags tested, derivative-building calls and their literal arguments, "
